@@ -2,6 +2,12 @@
 # silence soak: every quick check over a range of seeds; prints only failures
 FROM=${1:-100}; TO=${2:-140}; TIER=${3:-quick}
 cd "$(dirname "$0")/.."
+# when run under `vp run --with-repo`, build against the repository snapshot so that mutant
+# experiments on /repo do not disturb the soak
+if [ -n "${VP_RUN_REPO:-}" ]; then
+  sed -i "s#path = \"/repo\"#path = \"$VP_RUN_REPO\"#" harness/Cargo.toml
+  export ATSV_REPO="$VP_RUN_REPO"
+fi
 for seed in $(seq $FROM $TO); do
   for p in C01 C02 C03 C04 C05 C06 C07 C08 C09 C10 C11 C12 C13 C14 C15 C16 C17; do
     out=$(VERIF_SEED=$seed ATSV_NO_FUZZ=1 ./check $p --tier $TIER 2>&1); rc=$?
